@@ -229,7 +229,10 @@ impl http_datagram_codec::Decoder for Decoder {
         &mut self,
         mut data: Bytes,
     ) -> http_datagram_codec::DecodeResult<Self::Datagram> {
-        while !data.is_empty() {
+        // a record with an empty payload is complete as soon as its header is
+        while !data.is_empty()
+            || matches!(self.state, RecvState::AppName(0) | RecvState::Payload(0))
+        {
             match self.decode_chunk_once(data) {
                 (Some(d), tail) => return http_datagram_codec::DecodeResult::Complete(d, tail),
                 (None, tail) => data = tail,
